@@ -206,7 +206,20 @@ def stratified_sample(cases: list[dict], key, per_stratum: int, seed: int, cap: 
 
 # ----------------------------------------------------------------------------- replay pool
 
+def _orphan_watchdog(ppid: int) -> None:
+    import threading
+
+    def watch():
+        while True:
+            time.sleep(2)
+            if os.getppid() != ppid:
+                os._exit(3)
+
+    threading.Thread(target=watch, daemon=True).start()
+
+
 def _worker_init(x64: bool, repo: str, guard: bool) -> None:
+    _orphan_watchdog(os.getppid())
     os.environ['JAX_ENABLE_X64'] = '1' if x64 else '0'
     os.environ.setdefault('JAX_PLATFORMS', 'cpu')
     os.environ.setdefault('XLA_FLAGS', '--xla_cpu_multi_thread_eigen=false intra_op_parallelism_threads=1')
